@@ -136,6 +136,12 @@ def getMintSupply (t22 : Bool) (d : Bytes) : Res (Option Nat) :=
 def getMintDecimals (t22 : Bool) (d : Bytes) : Res (Option UInt8) :=
   checkedGetter (mintValidOf t22 d) (index d SPL_TOKEN_MINT_DECIMALS_OFFSET)
 
+/-- The 357-byte stand-in of a buffer of 357 bytes or more, built from its first 166 bytes: every
+    function of this file (and of `TokenRef`) returns on the long buffer what it returns on the
+    stand-in (`C17_length_frame`, `C16_length_frame`), which is how the driver evaluates 10 MiB
+    and 4 GiB cases. -/
+def standIn (head : Bytes) : Bytes := head ++ zeros 191
+
 /-- `is_known_spl_token_id` -/
 def isKnownId (p : Bytes) : Bool := p = TOKEN_ID || p = TOKEN_2022_ID
 
